@@ -41,7 +41,7 @@ func runC06(c *Ctx) {
 	p := c.P
 	m := extractPratt(p)
 	c.note("R1 pratt-model-extraction: table = the map[TokenTag]parseRule literal (keys and precedences folded by the type checker, parselets resolved to functions); loop = the cyclic test `minPrec OP prec(current)` in the function that invokes parseRule.infix; right binding power per parselet = the argument of its call to that function (own+k read from Parser.previous after advance, a constant, delimited, or none).")
-	c.note("R2 grouping-matrix oracle (statement): call/member/index > prefix ! - + > * / % > + - > comparisons ~ !~ is > && || > assignments; op2 is absorbed into op1's right operand iff level(op2) > level(op1), or the levels are equal and the level is assignment. Pairs suffice for triples because the climbing loop has no memory beyond minPrec.")
+	c.note("R2 grouping-matrix oracle (statement): call/member/index bind tighter than prefix ! - +, then * / %%, then + -, then comparisons ~ !~ is > && || > assignments; op2 is absorbed into op1's right operand iff level(op2) > level(op1), or the levels are equal and the level is assignment. Pairs suffice for triples because the climbing loop has no memory beyond minPrec.")
 	for _, pr := range m.Problems {
 		c.undecided("R1", "model: "+pr, "", pr)
 	}
